@@ -99,7 +99,9 @@ def run(chk):
         why = None
         if i.startswith("ok"):
             a = oans.get(k, "-")
-            if a == "-":
+            if i.startswith("ok-nil"):
+                why = "CheckDebsig returned neither an error nor a signer (a caller testing the error alone takes it for success)"
+            elif a == "-":
                 why = "verification succeeded although _gpg%s is not a valid signature by a key of the keyring over debian-binary, control and data" % c[1].decode()
             elif not i.startswith("ok " + a + " "):
                 why = "the reported signer is not the verifying entity"
@@ -123,7 +125,7 @@ def run(chk):
     # checks made before it (a success must not be remembered for another keyring or role)
     fresh = {}
     for (b, r, kr), i in zip(cases, impl):
-        fresh[(b, r, kr)] = ("ok:" + i.split(" ")[1]) if i.startswith("ok") else "err"
+        fresh[(b, r, kr)] = "ok-nil" if i.startswith("ok-nil") else (("ok:" + i.split(" ")[1]) if i.startswith("ok") else "err")
     scases, sexp = [], []
     for buf, ms, role, key in base:
         other = (key + 1) % 3
